@@ -2,6 +2,7 @@ import OmplModel.Proofs.Rng
 import OmplModel.Proofs.RngOracle
 import OmplModel.Proofs.RngSphere
 import OmplModel.Proofs.RngPlan
+import OmplModel.Proofs.RngPlanFuel
 /-!
 C20 — a fixed seed reproduces single-threaded planning bit for bit.
 
@@ -35,11 +36,18 @@ theorem ithSeed_clock_free (c s : UInt64) (n : Nat) :
   split <;> simp
 
 /-- the `i`-th generator created after `setSeed s` in a fresh process gets local seed `ithSeed s i`: a function of
-`(s, i)` only, whatever the clock read. -/
+`(s, i)` only, whatever the clock read.  (Stated on `[i]?`, not on a totalised `getD`: the entry exists, and it is that
+value; the inner `Option` is `none` only if the seed draw's rejection loop ran out of its 4096 rounds.) -/
 theorem ith_generator_depends_on_seed_and_index (c s : UInt64) (i : Nat) :
-    (SeedGen.seeds (i + 1) ((SeedGen.init c).setSeed s).1).getD i none = ithSeed s i := by
+    (SeedGen.seeds (i + 1) ((SeedGen.init c).setSeed s).1)[i]? = some (ithSeed s i) := by
+  have hl : ∀ (n : Nat) (g : SeedGen), (SeedGen.seeds n g).length = n := by
+    intro n
+    induction n with
+    | zero => intro g; rfl
+    | succ n ih => intro g; simp [SeedGen.seeds, ih]
   unfold ithSeed
-  rw [ithSeed_clock_free]
+  rw [ithSeed_clock_free c s (i + 1), List.getD_eq_getElem?_getD, List.getElem?_eq_getElem (by rw [hl]; omega)]
+  rfl
 
 example : ithSeed 1 0 = some 523834656 ∧ ithSeed 1 1 = some 303609453 ∧ ithSeed 42 2 = some 975868425 := by decide
 
@@ -166,6 +174,16 @@ theorem reseed_without_reset_returns_stale (r : Rng) (s : UInt64) (h : r.savedAv
     have := hs.2.2.1
     simp [setLocalSeedNoReset, Rng.create, h] at this
 
+/-- The hypothesis of `reseed_without_reset_returns_stale` is what every generator is in after an odd number of
+Gaussians: from any state without a pending value, a Gaussian draw that returned a value leaves one pending. -/
+theorem saved_pending_after_gaussian (r : Rng) (h : r.savedAvail = false) (x : Float) (hx : r.normal.1 = some x) :
+    r.normal.2.savedAvail = true := by
+  unfold Rng.normal at hx ⊢
+  simp only [h, Bool.false_eq_true, if_false] at hx ⊢
+  split
+  · rename_i hp; rw [hp] at hx; simp at hx
+  · rfl
+
 /-! ## the sphere-based routines, and copies -/
 
 /-- `reseed_fresh` for *all* routines of `RNG`, the boost-based ones included (`uniformNormalVector`, `uniformInBall`,
@@ -182,6 +200,24 @@ theorem reseed_fresh_all (r : Rng) (h : List OpX) (s : UInt64) (ops : List OpX) 
   simp only [List.singleton_append, Rng.runX, List.drop_succ_cons, List.drop_zero, List.nil_append, Rng.stepX,
     Rng.step]
   exact runX_sim (setLocalSeed_sim_create _ s) ops
+
+/-- The clause in the property's own words — "a generator given a local seed reproduces its stream after being reseeded
+with it" — for every variate kind `ompl::RNG` offers (uniform01/Real/Int/Bool, gaussian01/gaussian with the cached second
+normal, halfNormalReal/Int, quaternion, eulerRPY, uniformNormalVector, uniformInBall and with them the PHS draws, shuffle):
+a generator created with local seed `s` that printed the outputs of `ops`, then went through an arbitrary history `h` of
+draws of any kind, prints after `setLocalSeed(s)` exactly what it printed for `ops` at the beginning of its life. -/
+theorem reseed_reproduces_own_stream (s : UInt64) (ops h : List OpX) :
+    ((Rng.create s).runX (ops ++ h ++ [OpX.base (Op.setLocalSeed s)] ++ ops)).drop (ops.length + h.length + 1) =
+      ((Rng.create s).runX (ops ++ h ++ [OpX.base (Op.setLocalSeed s)] ++ ops)).take ops.length := by
+  have h1 := reseed_fresh_all (Rng.create s) (ops ++ h) s ops
+  rw [List.length_append] at h1
+  rw [h1]
+  rw [List.append_assoc, List.append_assoc, runX_append, List.take_left' (runX_length _ _)]
+
+example :
+    ((Rng.create 9).runX [OpX.base Op.getLocalSeed, OpX.base (Op.setLocalSeed 4), OpX.base (Op.setLocalSeed 9),
+      OpX.base Op.getLocalSeed]).drop 3 = [OutX.out (Out.seed 9)] := by
+  rfl
 
 /-- The code *before* /repo af02ab991 (finding F200, kept as a witness about the former implicit copy; the driver models
 it when the tree under test declares no `RNG(const RNG&)`): `RNG` is copyable, and the copy shares the original's `SphericalData`, which is bound to
@@ -290,6 +326,37 @@ theorem rrt_reproducible (P : Problem) (boxes : List (Vec × Vec)) (budget : Nat
     runS (envStep (boxOracle P boxes)) (program P budget hist) (envInit c₁ s it tr) =
       runS (envStep (boxOracle P boxes)) (program P budget hist) (envInit c₂ s it tr) :=
   planner_reproducible_from_global_seed _ c₁ c₂ s it tr _ _ (fun _ _ => rfl)
+
+open OmplModel.RngPlan in
+/-- The model's fuel is never the reason a run ends: `rrtLoop` has `budget + 2` iterations of fuel and the bisection
+queue of `checkMotion` has `nd`, and for *every* validity callback, problem, budget, `solve`/`clear` history and *every*
+environment state the program is started from (any seed, clock, kind of termination condition), a run of `program` that
+returns no result has met an `alloc` the environment could not answer — the rejection loop of the seed draw
+(`uniform_int_distribution(1,10⁹)` over `ranlux24_base`, rejection probability 10⁻⁶ per round) exhausted its own 4096
+rounds.  So `model-diverged` is printed by `drv_rngplan` only in that case.  (Proof: a Hoare logic over `runS`; each
+iteration that is not stopped by the poll makes at least one evaluation, resp. uses up one call of the iteration
+condition; the bisection queue's total interval length drops by one per step.) -/
+theorem rrt_never_out_of_fuel (orc : Vec → Bool) (P : Problem) (budget : Nat) (hist : List Phase) (e : EnvSt)
+    (h : (runS (envStep orc) (program P budget hist) e).1 = none) :
+    (runS (envStep orc) (program P budget hist) e).2.allocFailed = true := by
+  have := Ok_programM orc P budget hist e
+  unfold Ok exec at this
+  have hp : program P budget hist = (programM P budget hist).run := rfl
+  rw [hp] at h ⊢
+  cases hr : runS (envStep orc) (programM P budget hist).run e with
+  | mk o e' =>
+    rw [hr] at this h
+    simp only at h
+    subst h
+    exact this
+
+-- non-vacuity of the ghost flag: in a real start state generators are created and the flag stays down
+open OmplModel.RngPlan in
+example :
+    (runS (envStep fun _ => true) (allocN 3).run (envInit 5 1 false false)).1 = some () ∧
+      (runS (envStep fun _ => true) (allocN 3).run (envInit 5 1 false false)).2.allocFailed = false ∧
+      (runS (envStep fun _ => true) (allocN 3).run (envInit 5 1 false false)).2.rngs.size = 3 := by
+  decide
 
 open OmplModel.RngPlan in
 /-- "The i-th generator created depends only on the seed and on i" — inside a running planner: for *every* sequence of
